@@ -41,7 +41,7 @@ Lemma fold_sum_ext {A} (g1 g2 : A -> nat) (l : list A) : (forall s, In s l -> g1
 Proof. induction l as [|a l IH]; intros H; [reflexivity|]. cbn. rewrite (H a (or_introl eq_refl)), IH; [reflexivity|]. intros s Hs. apply H. right. exact Hs. Qed.
 
 (* the cursor over a store of plain sources at POSITION head stands for a list of as many events as are stored *)
-Lemma head_cursor (srcs : list srcspec) f : srcs <> [] -> (length srcs < merge_limit)%nat -> Forall plain_src srcs ->
+Lemma head_cursor (srcs : list srcspec) f : srcs <> [] -> (length srcs <= merge_limit)%nat -> Forall plain_src srcs ->
   exists c, new_cursor (map src_leaf srcs) f PHead = Some c /\
     cinv leaf_rest (leaf_ok false) false f sett_l c (content leaf_rest false (cu_tree c)) /\
     (length (content leaf_rest false (cu_tree c)) < fuel_of srcs)%nat.
@@ -61,13 +61,13 @@ Proof.
   - apply IH; [assumption|]. intros s0 Hs0. apply Hh. right. exact Hs0.
 Qed.
 
-(* POSITION head OFFSET k on a store read without RANGE (1.. partitions, any order, any WHERE filter; 50 or more: both
+(* POSITION head OFFSET k on a store read without RANGE (1.. partitions, any order, any WHERE filter; more than 50: both
    requests are refused): the forward read without its first k events *)
 Lemma head_store (srcs : list srcspec) f (k : nat) : srcs <> [] -> Forall plain_src srcs ->
   store_read srcs f PHead (Z.of_nat k) = option_map (skipn k) (store_read srcs f PHead 0).
 Proof.
   intros N P. unfold store_read, model_query.
-  destruct (Nat.ltb_spec (length srcs) merge_limit) as [Hl|Hl].
+  destruct (Nat.leb_spec (length srcs) merge_limit) as [Hl|Hl].
   - destruct (head_cursor srcs f N Hl P) as (c & E & Inv & Hf). rewrite E.
     destruct (query_positive leaf_rest (leaf_ok false) false f sett_l (leaf_get_spec false) (leaf_next_spec false) (sett_l_get false)
                 c _ (fuel_of srcs) k (fuel_of srcs) Inv Hf) as (c2 & ps2 & E2).
@@ -77,8 +77,8 @@ Proof.
     pose proof (filter_length_le (acc f) (content leaf_rest false (cu_tree c))) as Hfl.
     rewrite !firstn_all2; [reflexivity|lia|rewrite skipn_length; lia].
   - assert (E : forall p, new_cursor (map src_leaf srcs) f p = None).
-    { intros p. unfold new_cursor. rewrite get_journals_spec by (unfold merge_limit; lia). rewrite map_length.
-      destruct (Nat.ltb_spec (length srcs) merge_limit); [lia|reflexivity]. }
+    { intros p. unfold new_cursor. rewrite get_journals_spec. rewrite map_length.
+      destruct (Nat.leb_spec (length srcs) merge_limit); [lia|reflexivity]. }
     rewrite !E. reflexivity.
 Qed.
 
